@@ -522,7 +522,38 @@ def _wrappers(repo, rep):
               where=wh)
 
 
+def _default_translate_once(repo, rep):
+    # the default translation function substitutes the placeholders of the
+    # message once: a value of the mapping is inserted as it is (a '${x}'
+    # inside a named block's markup is not a placeholder)
+    st = repo.func("chameleon.i18n.simple_translate")
+    subs = [n for n in ast.walk(st.node) if isinstance(n, ast.Call)
+            and src(n.func) == "_interp_regex.sub"]
+    ok = len(subs) == 1 and len(subs[0].args) == 2 and \
+        isinstance(subs[0].args[1], ast.Name)
+    rep.check(ok, "R10.6", st.qualname, "placeholders are substituted in one "
+              "pass over the message (mapping values are not scanned again)",
+              construct="substitute-once", where=L.where(st),
+              detail=str([src(x)[:70] for x in subs]))
+    # implicit translation of text: the message id is taken from the text as
+    # it is rendered, i.e. after '$$' was un-doubled
+    vt = repo.func("chameleon.zpt.program.MacroProgram.visit_text")
+    und = [n.lineno for n in ast.walk(vt.node) if isinstance(n, ast.Assign)
+           and src(n.targets[0]) == "node" and
+           "replace('$$', '$')" in src(n.value)]
+    mt = [n.lineno for n in ast.walk(vt.node) if isinstance(n, ast.Call)
+          and src(n.func) in ("re.search", "re.match") and len(n.args) >= 2
+          and src(n.args[1]) == "node"]
+    rep.check(bool(und) and bool(mt) and min(und) < min(mt), "R10.6",
+              vt.qualname, "the implicit message id of a text run is cut out "
+              "of the un-doubled text (what translate gets is what would be "
+              "rendered)", construct="implicit-msgid-undoubled",
+              where=L.where(vt), detail="un-double at %s, match at %s" % (
+                  und, mt))
+
+
 def _translate_applied(repo, rep):
+    _default_translate_once(repo, rep)
     """i18n:translate wraps the element's content whenever the statement is
     present and the content is static -- also for an element without
     children (an explicit id is still looked up, with an empty default)."""
